@@ -37,7 +37,7 @@ CHECKS = {
    technique="deterministic simulation: seeded delivery order, message loss (missing script/datum/input/redeemer), budget-exhaustion placement and clock configuration vs sequential reference fold"),
  "C20": dict(engine="sim-storage", category="fault_enumeration", design_ref="DESIGN.md §4 C20",
    text="Storage-fault subset of C20: artefacts produced by the real tool-chain (plutus.json, hex/CBOR/flat scripts, pretty UPLC, .ak sources, aiken.toml, parameter CBOR) are truncated, bit-flipped, torn between two genuine builds, or have blocks zeroed / duplicated / deleted / swapped / appended, then fed to the consumer the tool uses for that file and to the next consumer down the chain, on an 8 MiB stack. Quick samples seeded fault plans over the whole artefact corpus; thorough additionally enumerates every truncation point and every single-bit flip of artefacts up to 4 KiB. A panic, abort, stack overflow or hang is a violation.",
-   note="Claimed for the storage-fault model only: adversarially constructed inputs (deep nesting, grammar-aware garbage) are outside this technique family. Verdict taken in the shipped profile (no overflow checks). Invalid UTF-8 is rejected by fs::read_to_string before a text decoder sees it.",
+   note="Claimed for the storage-fault model, plus plain inputs that only nest deeply (27 shapes, each in a child process on an 8 MiB stack; eleven signatures of three genuine defects are listed as known findings and printed as KNOWN-FINDING, exit 0): other adversarially constructed inputs (grammar-aware garbage) are outside this technique family. Verdict taken in the shipped profile (no overflow checks). Invalid UTF-8 is rejected by fs::read_to_string before a text decoder sees it.",
    technique="deterministic simulation: storage-fault injection (truncate / torn write / bit rot / misplaced block) on toolchain-written artefacts, with enumeration of all truncations and single-bit flips of small artefacts"),
  "C17": dict(engine="sim-sched", category="exploration", design_ref="DESIGN.md §4 C17",
    text="Seeded exploration of test-run schedules: the executor seam hands the real tests to 1-16 simulator-owned worker threads in a seeded assignment and order (one released at a time, exactly replayable), plus rayon's real scheduler at widths 2-16; results and result order are compared with the one-at-a-time run, and at every hand-off an ownership audit walks every Rc reachable from every test (no allocation shared between tests, none held from outside the test's own graph, no typed assertion attached). Sampling of schedules; the ownership invariant is decided exactly for every test set explored.",
@@ -45,7 +45,7 @@ CHECKS = {
    technique="deterministic simulation: controlled executor schedules (seeded worker assignment/order) + Rc-ownership invariant at the thread hand-off seam"),
  "C05": dict(engine="sim-budget", category="exploration", design_ref="DESIGN.md §4 C05",
    text="Seeded exploration of batching interval x budget-exhaustion point x (language, protocol, cost vector) over the whole upstream conformance corpus plus generated loop programs, against the unbatched execution as reference model and the upstream golden budgets (v3). Sampling, not proof: it decides batching independence and the succeed-iff-cost<=budget rule on everything explored.",
-   note="Trusted: the machine under slippage 1 as the unbatched reference; upstream .budget.expected files for the v3 corpus; the harness's parser of tests/conformance.rs for the ledger vectors.",
+   note="Trusted: the machine under slippage 1 as the unbatched reference; upstream .budget.expected files for the v3 corpus; the harness's parser of tests/conformance.rs for the ledger vectors; the harness's own copy of the ledger's parameter order (sim/src/ledger_params.rs). Coefficient-free probes (size groups, argument symmetry, step prices, parameter non-interference, vector positions) pin what golden budgets do not reach; which semantics variant applies to a (language, protocol) pair is NOT checked (no independent source).",
    technique="deterministic simulation: seeded batching-interval and budget-exhaustion fault injection vs unbatched reference model"),
 }
 
